@@ -827,7 +827,17 @@ package fit
 //@ pred w2(d *decoder, dsize int, padding int, k int, j int) := (k <= j ==> d.tmp[k] == wb(d, dsize, k)) && (j < k && k < dsize ==> d.tmp[k+padding] == wb(d, dsize, k))
 //@ pred w3(d *decoder, dsize int, padding int, k int, j int, pad byte) := (k < dsize ==> d.tmp[k+padding] == wb(d, dsize, k)) && (k < j ==> d.tmp[k] == pad)
 
+//@@ C02: a data record occupies exactly the sizes its definition lists: every field, known or not, and every
+//@@ developer field is consumed with its declared size, so skipping never disturbs the records that follow
+//@ spec rec fsum(fds []fieldDef, k int) int := ite(k <= 0, 0, fsum(fds, k-1)+int(fds[k-1].size))
+//@ spec rec dsum(dds []devDataFieldDesc, k int) int := ite(k <= 0, 0, dsum(dds, k-1)+int(dds[k-1].size))
+
 //@ func (d *decoder) parseDataFields(dm *defmsg, knownMsg bool, msgv reflect.Value) (r reflect.Value, err error)
+//@   slow record-length 90
+//@   slow content 90
+//@   ensures [record-length] {C02 C13} err == nil ==> d.bytes.n == old(d.bytes.n)+fsum(dm.fieldDefs, len(dm.fieldDefs))+dsum(dm.devDataFieldDescs, len(dm.devDataFieldDescs))
+//@   loop 0 invariant [record-length] {C02 C13} d.bytes.n == old(d.bytes.n)+fsum(dm.fieldDefs, rangeindex+1)
+//@   loop 4 invariant [record-length] {C02 C13} d.bytes.n == old(d.bytes.n)+fsum(dm.fieldDefs, len(dm.fieldDefs))+dsum(dm.devDataFieldDescs, rangeindex+1)
 //@   slow wire 90
 //@   slow wire1 90
 //@   slow wire2 90
